@@ -227,6 +227,12 @@ impl Pipe {
     pub fn tap(&self) -> Vec<u8> {
         self.0.lock().unwrap().buf.clone()
     }
+    /// heap bytes the harness itself holds for this pipe (to be excluded from library heap
+    /// measurements)
+    pub fn harness_bytes(&self) -> usize {
+        let st = self.0.lock().unwrap();
+        st.buf.capacity() + st.write_log.capacity() * std::mem::size_of::<(u64, usize)>()
+    }
     pub fn tap_len(&self) -> usize {
         self.0.lock().unwrap().buf.len()
     }
